@@ -320,3 +320,23 @@ for _id, (_t, _l) in ROUND11.items():
         if _t:
             t = t + " + " + _t
         CLAIMED[_id] = (t, text + _l, note, ref)
+
+ROUND12 = {
+ "C01": ("", " Shared R06.23."),
+ "C05": ("consumer-agreement rule for the word flush", " R05.13: the results of the word flush are consumed alike at every site. Shared R06.24."),
+ "C06": ("paired-test rule for the carriage return, hand-over rule for the position offset", " R06.23: every test of the rune against the carriage return that lets it be skipped is paired with a test for a trailing hyphen. R06.24: the position offset of a line is set to a non-zero constant only behind a hand-over of the line's words in the same iteration."),
+ "C09": ("deferred-release rule around function values", " R09.2: a lock held across a call of a function value of the caller is released by a deferred call."),
+ "C10": ("", " R10.6 also reports a fixed-point loop over html.UnescapeString."),
+ "C11": ("class-test rule for the clean-up", " R11.18: the only unicode class tests of cleanupToken are IsLetter and IsDigit."),
+ "C12": ("embed-coverage rule, nil-guard sibling rule", " R12.4 also requires every depth-3 txt file of the assets directory to be embedded. R12.16: a method of TraceConfiguration that LoadLicenses reaches reads its receiver's fields behind the nil test its siblings start with."),
+ "C13": ("", " Shared R14.1 and R14.6."),
+ "C15": ("order-independence rule for the archive reader", " R15.24: no ordered comparison of strings in the loop over the archive's entries."),
+ "C19": ("results-before-return rule, by-name rule for JSON entries, no-mode-bits rule", " R19.20: NewJSONResult finds the entry of a file by a map look-up keyed by Filename. R19.21: the tool does not test FileMode.IsRegular/Type/Perm. R19.22: in the function that calls GetResults every return that is not the return of an error stands behind that call."),
+ "C20": ("derived-state rule for sets, no-interface-equality rule for the queue", " R20.17: a function that writes the map of a set also assigns every other field of that set. R20.18: the queue compares no two interface values with ==."),
+}
+for _id, (_t, _l) in ROUND12.items():
+    if _id in CLAIMED:
+        t, text, note, ref = CLAIMED[_id]
+        if _t:
+            t = t + " + " + _t
+        CLAIMED[_id] = (t, text + _l, note, ref)
